@@ -117,7 +117,7 @@ Proof.
   split.
   { destruct (k_phsf a); cbn [opt_all phsf_ok is_some negb] in *; [exact A1|].
     rewrite andb_true_r in EP. exact EP. }
-  split; [exact A2|]. split; [exact A3|]. split; [exact A4|].
+  split; [exact A2|]. split; [exact A4|].
   split; [rewrite <- A4; apply negb_false_iff in DLk; exact DLk|].
   repeat split; assumption.
 Qed.
